@@ -421,3 +421,8 @@ Definition mrun_code (n : nat) (es : list nat) : option (N * N) :=
   | None => None
   end.
 
+
+(* finite executions of the fine-grained system (used by C36_sweep_frees_initial_zombies) *)
+Inductive steps : state -> list event -> state -> Prop :=
+| steps_nil : forall s, steps s [] s
+| steps_cons : forall s e s1 es s2, step s e s1 -> steps s1 es s2 -> steps s (e :: es) s2.
